@@ -547,7 +547,20 @@ func init() {
 			}
 			return c05SchedUnit(unit, env)
 		},
-		Replay: func(v *fw.Violation) string { b, _ := json.Marshal(v.Witness); return "re-run: kvcheck one C05 quick " + v.Unit + "\nwitness: " + string(b) },
+		Replay: func(v *fw.Violation) string {
+			if w, ok := v.Witness.(map[string]any); ok && w["kind"] == "schedule" {
+				return replaySched(func(n string) *explore.Scenario {
+					for _, sc := range c05Scenarios() {
+						if sc.Name == n {
+							return sc
+						}
+					}
+					return nil
+				}, v)
+			}
+			b, _ := json.Marshal(v.Witness)
+			return "re-run: kvcheck one C05 quick " + v.Unit + "\nwitness: " + string(b)
+		},
 		BudgetQuick: 110, BudgetThorough: 900,
 	})
 }
@@ -649,9 +662,10 @@ func clipS(s string, n int) string {
 
 // concurrent scans: a running scan against writers, a flush and a compaction that touch other keys
 type c05ScanObs struct {
-	Keys []string
-	Vals []string
-	Err  string
+	Keys  []string
+	Vals  []string
+	Err   string
+	Setup string // a set-up write failed: nothing to check in this execution
 }
 
 func c05Scenarios() []*explore.Scenario {
@@ -668,14 +682,24 @@ func c05Scenarios() []*explore.Scenario {
 				defer r.Close()
 				sm := r.Eng.VerifStorage().(*storage.Manager)
 				// pre-existing keys spread over an SSTable, an immutable table and the active table
-				r.Eng.Put([]byte("k2"), []byte("v2"))
+				// (the set-up runs under the explored scheduler too: its writes race the background flush, and a
+				// write that loses against a log rotation may fail - then the premise "existed before" is void)
+				setup := func(err error) {
+					if err != nil && obs.Setup == "" {
+						obs.Setup = err.Error()
+					}
+				}
+				setup(r.Eng.Put([]byte("k2"), []byte("v2")))
 				sm.VerifSwitch()
 				vsched.Quiesce()
-				r.Eng.Put([]byte("k4"), []byte("v4"))
-				r.Eng.Put([]byte("k0"), []byte("gone"))
-				r.Eng.Delete([]byte("k0"))
+				setup(r.Eng.Put([]byte("k4"), []byte("v4")))
+				setup(r.Eng.Put([]byte("k0"), []byte("gone")))
+				setup(r.Eng.Delete([]byte("k0")))
 				sm.VerifSwitch()
-				r.Eng.Put([]byte("k6"), []byte("v6"))
+				setup(r.Eng.Put([]byte("k6"), []byte("v6")))
+				if obs.Setup != "" {
+					return obs
+				}
 				var ts []*vsched.Thread
 				ts = append(ts, vsched.GoNamed("SCAN", func() {
 					it, err := r.Eng.GetIterator()
@@ -725,6 +749,9 @@ func c05Scenarios() []*explore.Scenario {
 			Check: func(s *vsched.Sched, o any) (string, string) {
 				ob := o.(*c05ScanObs)
 				key := strings.Join(ob.Keys, ",")
+				if ob.Setup != "" {
+					return "set-up write failed: " + ob.Setup, ""
+				}
 				if ob.Err != "" {
 					return key, "operation-failed\n" + ob.Err
 				}
